@@ -47,11 +47,11 @@ def first_leak_site(err):
     return "?"
 
 
-def shard(item):
+def shard(item, alarm_s=60):
     side, ks, errdir = item
     os.makedirs(errdir, exist_ok=True)
     p = subprocess.run([_exe, "run", side, errdir, _tu], input="".join("%d\n" % k for k in ks).encode(), stdout=subprocess.PIPE, stderr=subprocess.PIPE,
-                       env=dict(os.environ, **ENV))
+                       env=dict(os.environ, FAULTINJ_ALARM_S=str(alarm_s), **ENV))
     out = []
     for l in p.stdout.decode("latin1").split("\n"):
         t = l.split()
@@ -109,6 +109,16 @@ def run(tier):
             plan.append((side, ks[i:i + 40], os.path.join(wd, "e%s%d" % (side, i))))
     res, complete = vlib.pmap_deadline(shard, plan, ck.deadline - 30)
     done = 0
+    # a child stopped by the 60 s wall-clock guard (signal 14) is run again, alone, with a 15 min guard before it counts as a hang
+    reruns = 0
+    for idx, ((side, ks, errdir), results) in enumerate(res):
+        late = [r["k"] for r in results if r.get("died") == "signal 14"]
+        for k in late:
+            if reruns >= 8:
+                break
+            reruns += 1
+            again = shard((side, [k], errdir + "r"), alarm_s=900)
+            results[:] = [r for r in results if r["k"] != k] + again
     reported = 0
     outcomes = collections.Counter()
     samples = []
@@ -151,7 +161,7 @@ def run(tier):
     cov = {"evaluations": done, "distinct_nontrivial": max(reported, 0), "rule": "fail exactly the k-th fault point of the session; quick: first and last dynamic "
            "occurrence of every distinct allocation context (phase, kind, 6 innermost return addresses) of the encoder and every k of the decoder; thorough: every k; "
            "distinct_nontrivial = faults that were reported by the failing API call as an error code", "samples": samples, "exhaustive": bool(complete),
-           "sessions": info, "outcomes": dict(outcomes)}
+           "sessions": info, "outcomes": dict(outcomes), "watchdog_reruns": reruns}
     return ck.finish(cov, ["only calls made from library code are fault points (link-time interposition); kernel/libc-internal failures are not modelled",
                            "encoder session 64x64 lp 1 hl 2 (init, no pictures); decoder session with one temporal unit"])
 
